@@ -244,6 +244,14 @@ func init() {
 		m.noteAssumption("stub ftpserver config.NewConfig: reports an error (the FTP server itself is outside the configuration property)")
 		return Tuple{(*Value)(nil), m.newError("ftp server configuration not loaded in the harness")}
 	}
+	I["runtime/debug.Stack"] = func(m *Machine, fr *frame, args []Value) Value { return m.bytesToSlice(nil) }
+	I["runtime/debug.PrintStack"] = func(m *Machine, fr *frame, args []Value) Value { return nil }
+	I["(*net/http.Server).ListenAndServe"] = func(m *Machine, fr *frame, args []Value) Value {
+		return m.newError("http: Server closed")
+	}
+	I["(*net/http.Server).ListenAndServeTLS"] = func(m *Machine, fr *frame, args []Value) Value {
+		return m.newError("http: Server closed")
+	}
 	I[diamPkg+".ListenAndServeTLS"] = func(m *Machine, fr *frame, args []Value) Value { return Iface{} }
 	I[diamPkg+".ListenAndServe"] = func(m *Machine, fr *frame, args []Value) Value { return Iface{} }
 	I["(*github.com/fiorix/go-diameter/diam/dict.Parser).Load"] = func(m *Machine, fr *frame, args []Value) Value { return Iface{} }
